@@ -76,12 +76,21 @@ package base
 //@ func (mb *MetricBucket) reset()
 //@   props C08, C09
 //@   requires mb != nil
-//@   ensures[zeroed]{C02,C08,C09} forall e Int :: validEvent(e) ==> mb.counter[e] == 0
-//@   ensures[defaults]{C02,C08,C09} mb.minRt == base.DefaultStatisticMaxRt && mb.maxConcurrency == 0
+//@   ensures[zeroed]{C02,C08,C09,seq} forall e Int :: validEvent(e) ==> mb.counter[e] == 0
+//@   ensures[defaults]{C02,C08,C09,seq} mb.minRt == base.DefaultStatisticMaxRt && mb.maxConcurrency == 0
 //@   modifies mb.counter, mb.minRt, mb.maxConcurrency
+// C09 (thread-modular): whatever late recorders do to this bucket meanwhile, the reset stores a zero into every counter
+// (unconditionally — not only when a racy read of the counter says there is something to clear, and not by an exchange
+// that gives up when a recorder got in between): no amount recorded before the reset began survives it
+//@   concurrent C09 and sequential
+//@   shared mb.counter, mb.minRt
+//@   onwrite[counters-are-only-ever-cleared]{C09} mb.counter: new == 0
+//@   ensures[every-counter-is-cleared-whatever-other-recorders-do]{C09,conc} forall e Int :: validEvent(e) ==> written(mb.counter[e])
+//@   ensures[min-rt-is-put-back-whatever-other-recorders-do]{C09,conc} written(mb.minRt)
 //@   loop 1:
-//@     invariant[prefix-zero] 0 <= i && i <= base.MetricEventTotal && (forall e Int :: 0 <= e && e < i ==> mb.counter[e] == 0)
-//@     invariant[frame] frame(mb.counter)
+//@     invariant[prefix-zero]{seq} 0 <= i && i <= base.MetricEventTotal && (forall e Int :: 0 <= e && e < i ==> mb.counter[e] == 0)
+//@     invariant[prefix-cleared]{conc} 0 <= i && i <= base.MetricEventTotal && (forall e Int :: 0 <= e && e < i ==> written(mb.counter[e]))
+//@     invariant[frame]{seq} frame(mb.counter)
 
 //@ func (mb *MetricBucket) UpdateConcurrency(concurrency)
 //@   props C08
@@ -244,6 +253,46 @@ package base
 //@     invariant[upper] curMax >= 0 && (forall j Int :: 0 <= j && j < #i ==> bucketOf(satisfiedBuckets[j]).counter[event] <= curMax)
 //@     invariant[attained] curMax == 0 || (exists j Int :: 0 <= j && j < #i && bucketOf(satisfiedBuckets[j]).counter[event] == curMax)
 
+// smallest recorded rt over the buckets of the window, never above the default cap, never below 1
+//@ func (m *SlidingWindowMetric) MinRT() r
+//@   pure
+//@   props C08
+//@   requires viewOK(m) && bucketsOK(m.real.data, base.MetricEventRt)
+//@   ensures[not-above-any-bucket-of-the-window] forall i Int :: 0 <= i && i < m.real.data.array.length && clock_ms > 0 && live(m.real.data, clock_ms, m.real.data.array.data[i]) && inWindow(m, clock_ms, m.real.data.array.data[i].BucketStart) ==> r <= R(max(1, bucketOf(m.real.data.array.data[i]).minRt))
+//@   ensures[capped-and-at-least-one] 1.0 <= r && r <= R(base.DefaultStatisticMaxRt)
+//@   ensures[attained] r == R(base.DefaultStatisticMaxRt) || (exists i Int :: 0 <= i && i < m.real.data.array.length && clock_ms > 0 && live(m.real.data, clock_ms, m.real.data.array.data[i]) && inWindow(m, clock_ms, m.real.data.array.data[i].BucketStart) && r == R(max(1, bucketOf(m.real.data.array.data[i]).minRt)))
+//@   modifies nothing
+//@   loop 1:
+//@     invariant[lower] minRt <= base.DefaultStatisticMaxRt && (forall j Int :: 0 <= j && j < #i ==> minRt <= bucketOf(satisfiedBuckets[j]).minRt)
+//@     invariant[attained] minRt == base.DefaultStatisticMaxRt || (exists j Int :: 0 <= j && j < #i && bucketOf(satisfiedBuckets[j]).minRt == minRt)
+
+// peak concurrency over the buckets of the window (0 if none)
+//@ func (m *SlidingWindowMetric) MaxConcurrency() r
+//@   pure
+//@   props C08
+//@   requires viewOK(m) && bucketsOK(m.real.data, base.MetricEventPass)
+//@   ensures[upper] forall i Int :: 0 <= i && i < m.real.data.array.length && clock_ms > 0 && live(m.real.data, clock_ms, m.real.data.array.data[i]) && inWindow(m, clock_ms, m.real.data.array.data[i].BucketStart) ==> bucketOf(m.real.data.array.data[i]).maxConcurrency <= r
+//@   ensures[nonneg] r >= 0
+//@   ensures[attained] r == 0 || (exists i Int :: 0 <= i && i < m.real.data.array.length && clock_ms > 0 && live(m.real.data, clock_ms, m.real.data.array.data[i]) && inWindow(m, clock_ms, m.real.data.array.data[i].BucketStart) && bucketOf(m.real.data.array.data[i]).maxConcurrency == r)
+//@   modifies nothing
+//@   loop 1:
+//@     invariant[upper] maxConcurrency >= 0 && (forall j Int :: 0 <= j && j < #i ==> bucketOf(satisfiedBuckets[j]).maxConcurrency <= maxConcurrency)
+//@     invariant[attained] maxConcurrency == 0 || (exists j Int :: 0 <= j && j < #i && bucketOf(satisfiedBuckets[j]).maxConcurrency == maxConcurrency)
+
+// per-second items: every item is stamped with the second it was built for
+//@ func (m *SlidingWindowMetric) metricItemFromBuckets(ts, ws) r
+//@   props C08
+//@   requires forall j Int :: 0 <= j && j < len(ws) ==> isBucket(ws[j])
+//@   ensures[stamped-with-its-second] r != nil && fresh(r) && r.Timestamp == ts
+//@   modifies nothing
+//@   loop 1:
+//@     invariant[item] item != nil && fresh(item) && item.Timestamp == ts
+//@     invariant[frame] frame()
+
+// SecondMetricsOnCondition itself (a map of appended lists: proving that every grouped list still holds only buckets
+// needs a separation invariant over the map's values that no installed solver discharged within the budget) is
+// decided by the bounded stand-in c08_window_model only.
+
 // ---- P2 placement (one thread): mapping a time to its slot and refreshing stale slots
 //@ func (aa *AtomicBucketWrapArray) compareAndSet(idx, except, update) ok
 //@   assumed
@@ -272,16 +321,18 @@ package base
 //@   ensures forall e Int :: validEvent(e) ==> bucketOf(bucket).counter[e] == 0
 //@   modifies bucket.BucketStart, fields(bucketOf(bucket))
 
-// C09 (concurrent part, thread-modular): other recorders and readers may run at any point. Under the property's
-// premise (no recorder is stalled for longer than one bucket length) nobody else writes the counters of the bucket
-// that is being recycled, so only its start word is shared here. The recycled bucket must not become visible under
-// its new start while it still holds the expired window's data.
+// C09 (concurrent part, thread-modular): other recorders and readers may run at any point — also late recorders of the
+// bucket that is being recycled (with a one-bucket array a recorder that is a millisecond late is enough), so the start
+// word, the counters and the minimum rt are all shared here. The recycled bucket must not become visible under its new
+// start while it still holds the expired window's data: before the new start is published this call has stored a zero
+// into every counter (what late recorders add after that is theirs, not the expired window's).
 //@ func (bla *BucketLeapArray) ResetBucketTo(bw, startTime) r
 //@   props C08, C09
 //@   requires isBucket(bw)
 //@   concurrent C09
-//@   shared bw.BucketStart
-//@   onwrite[expired-data-zeroed-before-new-start-is-published]{C09} bw.BucketStart: forall e Int :: validEvent(e) ==> bucketOf(bw).counter[e] == 0
+//@   shared bw.BucketStart, bucketOf(bw).counter, bucketOf(bw).minRt
+//@   onwrite[expired-data-zeroed-before-new-start-is-published]{C09} bw.BucketStart: (forall e Int :: validEvent(e) ==> written(bucketOf(bw).counter[e])) && written(bucketOf(bw).minRt)
+//@   onwrite[counters-are-only-ever-cleared]{C09} bucketOf(bw).counter: new == 0
 //@   replay leaparray_stale_window for expired-data-zeroed
 //@   ensures[start] r == bw && bw.BucketStart == startTime && stored(bw.Value) == old(stored(bw.Value))
 //@   ensures[zeroed] forall e Int :: validEvent(e) ==> bucketOf(bw).counter[e] == 0
